@@ -146,6 +146,11 @@ fn gen_pattern(u: &mut Unstructured, kind: Kind, v: Inst, off: i32) -> arbitrary
                 // derived period next to a 24-hour clock
                 fields.push(fld(period_sym, pw));
             }
+            if style < 2 && u.coin(1, 6)? {
+                // a derived 12-hour field next to the 24-hour clock (with or without a period): the
+                // 24-hour field determines the hour
+                fields.push(fld(if u.coin(1, 2)? { 'h' } else { 'K' }, 1 + u.below(3)? as usize));
+            }
         }
         if shape >= 2 {
             fields.push(fld('m', 1 + u.below(3)? as usize));
@@ -289,8 +294,11 @@ impl Prop for RoundTrip {
         if any_hour && !hour_ok {
             return Verdict::Skip("outside the coherent grammar: 12-hour clock without period");
         }
-        if [ph, pk, phh, pkk].iter().filter(|x| x.is_some()).count() > 1 {
-            return Verdict::Skip("outside the coherent grammar: several hour fields");
+        if (ph.is_some() && pk.is_some()) || (phh.is_some() && pkk.is_some()) {
+            return Verdict::Skip("outside the coherent grammar: several hour fields of one clock system");
+        }
+        if (ph.is_some() || pk.is_some()) && (phh.is_some() || pkk.is_some()) {
+            cx.nt("12h_field_next_to_a_24h_field");
         }
         if period.is_some() && !any_hour {
             return Verdict::Skip("outside the coherent grammar: period without hour");
